@@ -9,5 +9,5 @@ CONSTANTS
   UserAllLeaves = 2
   UserOneLeaves = 3
   UserVars = {"succeeded", "failed", "x", "y", "expired", "submit_failed", "submitted"}
-  SmallVars = {"succeeded", "failed", "x", "expired"}
+  SmallVars = {"succeeded", "failed", "x"}
 INVARIANT Monotone
